@@ -76,7 +76,7 @@ func (p *Prog) value(into string) *GV {
 	case x < 19:
 		return r.WidthGV()
 	default:
-		return gvUnsupported(r.Intn(16))
+		return gvUnsupported(r.Intn(len(unsupportedValues)))
 	}
 }
 
